@@ -277,7 +277,16 @@ impl World {
         let emitted_msgs = self.node_mut(i).run.as_mut().unwrap().replica.as_mut().unwrap().drain_outbound();
         let mut emitted = vec![];
         for m in emitted_msgs {
-            emitted.push(self.add_to_pool(m, false));
+            let before = self.pool.len();
+            let idx = self.add_to_pool(m, false);
+            if idx < before {
+                // a re-broadcast of an identical message (timers re-send timeout and new-view messages):
+                // the network carries it again, so it is deliverable again to everybody
+                for n in self.nodes.iter_mut().flatten() {
+                    n.delivered.remove(&idx);
+                }
+            }
+            emitted.push(idx);
         }
         let mut out = out;
         if let StepOut::Proposed(Ok(Some(_))) = &out {
